@@ -73,7 +73,12 @@ type Case struct {
 // models whose kernels accept any non-negative input (links add arbitrary upstream outputs)
 var pool = []string{"RunoffCoefficient", "Sum", "Input", "FixedPartition", "EmcDwc", "FixedConcentration", "Lag", "Muskingum",
 	"GR4J", "Simhyd", "DepthToRate", "ApplyScalingFactor", "Gate", "StorageRouting", "LumpedConstituentRouting", "InstreamCoarseSediment",
-	"StorageTrapAll", "PartitionDemand", "DeliveryRatio", "Surm"}
+	"StorageTrapAll", "PartitionDemand", "DeliveryRatio", "Surm", "RatingCurvePartition", "Storage"}
+
+// models with table-valued parameters (the parameter dataset is padded to the longest table of any node; ow-sim
+// sizes the model from the whole dataset).  Their kernels only accept inputs inside their tables, so they always
+// have stored inputs and are never the destination of a link.
+var tabled = map[string]bool{"RatingCurvePartition": true, "Storage": true}
 
 func subset(t *rapid.T, names []string, label string) []string {
 	var r []string
@@ -93,12 +98,23 @@ func gen(t *rapid.T) Case {
 	nm := rapid.IntRange(1, 4).Draw(t, "nmodels")
 	names := rapid.Permutation(pool).Draw(t, "models")[:nm]
 	for mi, name := range names {
-		ms := ModelSpec{Name: name, HasInputs: mi == 0 || rapid.Bool().Draw(t, "hasInputs")}
+		ms := ModelSpec{Name: name, HasInputs: mi == 0 || rapid.Bool().Draw(t, "hasInputs") || tabled[name]}
 		ms.Gens = make([][]Node, c.G)
 		for g := 0; g < c.G; g++ {
 			k := rapid.IntRange(0, 4).Draw(t, "count")
 			if g == 0 && mi == 0 && k == 0 {
 				k = 1
+			}
+			if tabled[name] && g == c.G-1 && k == 0 {
+				// a model group with a [rows, 0] parameter table cannot be sized at all (FindDimensions of an empty
+				// table); no writer produces one, so a tabled model has at least one node
+				any := false
+				for _, ns := range ms.Gens {
+					any = any || len(ns) > 0
+				}
+				if !any {
+					k = 1
+				}
 			}
 			for i := 0; i < k; i++ {
 				cell := simref.DrawCell(t, name)
@@ -126,7 +142,7 @@ func gen(t *rapid.T) Case {
 		s := rapid.SampledFrom(slots).Draw(t, "src")
 		var later []slot
 		for _, d := range slots {
-			if d.g > s.g {
+			if d.g > s.g && !tabled[c.Models[d.m].Name] {
 				later = append(later, d)
 			}
 		}
@@ -625,6 +641,36 @@ func label(c Case, r *pbt.Result) {
 		r.Label("several-links-into-one-input")
 	}
 	for _, ms := range c.Models {
+		if tabled[ms.Name] {
+			// longest table per generation vs over all nodes
+			desc := simref.New(ms.Name).Description()
+			all, short := 0, false
+			var per []int
+			for g := range ms.Gens {
+				k := 0
+				for _, n := range ms.Gens[g] {
+					for _, x := range simref.Rows(desc, []simref.Cell{n.Cell}) {
+						if x > k {
+							k = x
+						}
+					}
+				}
+				per = append(per, k)
+				if k > all {
+					all = k
+				}
+			}
+			for g, k := range per {
+				if len(ms.Gens[g]) > 0 && k < all {
+					short = true
+				}
+			}
+			r.Label("table-parameter-model")
+			if short {
+				r.Label("table-parameter-model:generation-without-the-longest-table")
+				r.NonTrivial = true
+			}
+		}
 		if len(ms.Gens[0]) == 0 {
 			r.Label("model-absent-from-generation-0")
 		}
